@@ -341,3 +341,135 @@ pub fn clock_faulted(w: &mut World, tx: &Transaction, r: &mut Rng) {
         }
     }
 }
+
+/// V1 on everything the reference satisfier can build when every signer has signed this very
+/// transaction: satisfactions, non-canonical forms and dissatisfactions (which must fail). The
+/// interpreter may never accept what R1 rejects.
+pub fn reference_candidates(w: &mut World, actor: &str, tx: &Transaction, i: usize) {
+    let env = w.env.clone();
+    // every other attempt, decided by the run's decision source so that replay is exact
+    if w.dec.choose(&format!("v1ref:{}:{}", actor, w.stats.attempts), 2) == 1 {
+        return;
+    }
+    let hashes: Vec<usize> = env.uni.hashes.iter().map(|h| h.id).collect();
+    let sat = god_sat(&env, tx, i, &env.inputs[i].key_ids, &hashes, mix(&[env.run_seed, 0x763172, w.stats.attempts]));
+    let world = crate::mon_ref::ref_world(&sat, true);
+    let rr = crate::mon_ref::ref_spends_ext(&env, &env.inputs[i].desc, &sat, &world, true);
+    if rr.unsupported {
+        return;
+    }
+    w.stats.probe("v1_reference_batches");
+    let mut r = Rng::new(mix(&[env.run_seed, 0x763173, w.stats.attempts, i as u64]));
+    let mut spends = rr.spends;
+    // sample at most 40, keeping the non-canonical ones preferentially (they are the interesting ones)
+    spends.sort_by_key(|s| s.canonical);
+    if spends.len() > 40 {
+        let keep_first = 25;
+        let mut rest = spends.split_off(keep_first);
+        r.shuffle(&mut rest);
+        rest.truncate(15);
+        spends.extend(rest);
+    }
+    for s in spends {
+        let mut t = tx.clone();
+        t.input[i].script_sig = s.ss.clone();
+        t.input[i].witness = Witness::from_slice(&s.wit);
+        v1(w, actor, &t, i, if s.canonical { "R3" } else { "R3-noncanonical" });
+        if !w.violations.is_empty() {
+            return;
+        }
+    }
+}
+
+/// Relay-style tampering of one library satisfaction at probe time: item mutations and, for nested
+/// segwit, scriptSig mutations (extra pushes around the redeemScript push).
+pub fn tamper(w: &mut World, actor: &str, tx: &Transaction, i: usize, wit: &[Vec<u8>], ss: &bitcoin::ScriptBuf) {
+    let env = w.env.clone();
+    let kind = env.inputs[i].kind;
+    if w.dec.choose(&format!("v1tamper:{}:{}", actor, w.stats.attempts), 2) == 1 {
+        return;
+    }
+    let mut r = Rng::new(mix(&[env.run_seed, 0x74616d, w.stats.attempts, i as u64]));
+    let legacy = matches!(kind, OutKind::Bare | OutKind::Pkh | OutKind::ShMs);
+    let items: Vec<Vec<u8>> = if legacy { crate::vm::parse_pushes(ss.as_bytes()).unwrap_or_default() } else { wit.to_vec() };
+    let alphabet: Vec<Vec<u8>> = vec![vec![], vec![1], vec![2], vec![0; 32], vec![0x42; 32], vec![0x42; 33], vec![0x42; 64], vec![0x42; 72]];
+    let mut cands: Vec<(Vec<Vec<u8>>, bitcoin::ScriptBuf)> = vec![];
+    if !items.is_empty() {
+        for _ in 0..16 {
+            let mut it = items.clone();
+            for _ in 0..r.range(1, 2) {
+                match r.below(4) {
+                    0 if it.len() > 1 => {
+                        let k = r.below(it.len() as u64) as usize;
+                        it.remove(k);
+                    }
+                    1 => {
+                        let k = r.below(it.len() as u64) as usize;
+                        let v = it[k].clone();
+                        it.insert(k, v);
+                    }
+                    2 if it.len() > 1 => {
+                        let a = r.below(it.len() as u64) as usize;
+                        let b = r.below(it.len() as u64) as usize;
+                        it.swap(a, b);
+                    }
+                    _ => {
+                        let k = r.below(it.len() as u64) as usize;
+                        it[k] = r.pick(&alphabet).clone();
+                    }
+                }
+            }
+            if legacy {
+                let mut b = vec![];
+                for x in &it {
+                    crate::vm::push_data(&mut b, x);
+                }
+                cands.push((vec![], bitcoin::ScriptBuf::from_bytes(b)));
+            } else {
+                cands.push((it, ss.clone()));
+            }
+        }
+    }
+    // scriptSig mutations for segwit spends (native: must stay empty; nested: exactly one push)
+    if !legacy {
+        let pushes = crate::vm::parse_pushes(ss.as_bytes()).unwrap_or_default();
+        let mut variants: Vec<Vec<Vec<u8>>> = vec![];
+        let mut a = pushes.clone();
+        a.insert(0, vec![0x42; 4]);
+        variants.push(a);
+        let mut b = pushes.clone();
+        if let Some(l) = pushes.last() {
+            b.insert(0, l.clone());
+        } else {
+            b.push(vec![]);
+        }
+        variants.push(b);
+        let mut c = pushes.clone();
+        c.push(vec![1]);
+        variants.push(c);
+        for v in variants {
+            let mut bytes = vec![];
+            for x in &v {
+                crate::vm::push_data(&mut bytes, x);
+            }
+            cands.push((wit.to_vec(), bitcoin::ScriptBuf::from_bytes(bytes)));
+        }
+        // non-minimal push of the same redeem script (PUSHDATA1)
+        if let Some(l) = pushes.last() {
+            if l.len() < 76 && pushes.len() == 1 {
+                let mut bytes = vec![0x4c, l.len() as u8];
+                bytes.extend_from_slice(l);
+                cands.push((wit.to_vec(), bitcoin::ScriptBuf::from_bytes(bytes)));
+            }
+        }
+    }
+    for (wv, sv) in cands {
+        let mut t = tx.clone();
+        t.input[i].script_sig = sv;
+        t.input[i].witness = Witness::from_slice(&wv);
+        v1(w, actor, &t, i, "tampered");
+        if !w.violations.is_empty() {
+            return;
+        }
+    }
+}
